@@ -77,7 +77,7 @@ func installProbes(ns types.EnvType, p *Probe) {
 		return a[0], nil
 	}})
 	ns.Set(types.Symbol{Val: "depth!"}, types.Func{Fn: func(_ context.Context, a []types.MalType) (types.MalType, error) {
-		pcs := make([]uintptr, 1<<16)
+		pcs := make([]uintptr, 512)
 		d := 0
 		for {
 			n := runtime.Callers(0, pcs)
